@@ -29,7 +29,7 @@ def digest (s : St) : String :=
   let rot := if s.files.isEmpty then "-" else "|".intercalate (s.files.map fileStr)
   let st := if s.stored.isEmpty then "-" else joinNat "." (sortNat (s.stored.map (·.id)))
   let b (x : Bool) : String := if x then "1" else "0"
-  s!"ack={b s.lastAck} up={b s.up} buf={bufsStr s.bufs} q={s.queue.length} inf={b s.inflight.isSome} flag={b s.flag} ch={s.chan.length} dr={s.dropped} act={act} rot={rot} st={st}"
+  s!"ack={b s.lastAck} up={b s.up} buf={bufsStr s.bufs} q={s.queue.length} inf={b s.inflight.isSome} flag={b (s.up && s.flag)} ch={s.chan.length} dr={s.dropped} act={act} rot={rot} st={st}"
 
 def kv? (pre : String) (f : String) : Option Nat :=
   if f.startsWith pre then (f.drop pre.length).toString.toNat? else none
